@@ -82,7 +82,7 @@ func C06(p *ir.Program, r *report.R) {
 	}
 	gasNeverSigned(c)
 	r.Floor = 30
-	r.Explain = "Decided (very narrow; the conservation equation itself is arithmetic over runtime values and a cgo curve library and is NOT decided): (B1) an unbalanced confidential transaction cannot be accepted unless the acceptance path skips the balance/range checks — every nil return of UTXOTransaction.CheckBasic is dominated by successful checkTxSemantic and checkCommitEqual, and, as all-paths properties, by checkRctSigData when confidential parts exist, by the range-proof check when there are confidential outputs and by the ring-signature check when there are confidential inputs; checkCommitEqual's nil return is dominated by equality of the input and output commitment sums (both non-empty) and every account-side input/output iteration passes the amount-commitment equality; block processing admits a confidential transaction only through a cache hit or a successful basic check, processBlock stops when verification fails, Process checks fee adequacy (CheckStoreState) before executing; (B2) a failed call moves nothing but fees — the snapshot is taken after preTransit and before transitInputs, refundGas reverts to that same snapshot on every vmerr path before any refund, all balance checks of transitInputs precede the first debit. ADDED after seeded-change testing: amount width — BigInt2Hash's byte loop runs while i < 8 and a value still positive afterwards is rejected with no companion test other than i == 8 / i >= 8 (no truncation modulo 2^64); CheckStoreState and checkState admit an account input only when the balance OF THE TRANSACTION'S TOKEN covers the amount and, for non-native tokens, the native balance covers the fee; checkRctSigData succeeds only with exactly one output commitment per confidential output and one ring signature per confidential input; payTransferGas reports 0 on its error path. VALUE LEDGER (added while deepening): every StateDB.{Add,Sub,Set}[Token]Balance call of app/types/vm (34 sites) is either half of a debit+credit pair with the same SSA token and amount and different accounts whose debit is covered by a balance check, or a reviewed table entry whose account, token, amount, state and guards still have the reviewed form (gas bought / refunded / collected at the par price, inputs debited / outputs credited with the same tx.Value(), credit-only primitives used at call depth 0 only and entered from the transaction layer only, issue with account==token and amount>0, self-destruct crediting the holdings of the account it then removes, mempool check-state debits); a new site is reported as unreviewed Rounds 4-5: no gas quantity converted to a signed integer without a bound; the mempool signature cache and the journal dirty counts are checked here too (shared rules). Round 6: 'no gas used' is declared only for contract upgrades; an account input is accepted only when none was accepted before. NOT decided: fee arithmetic, EVM/WASM transfers, conservation sums, Bulletproof/commitment soundness."
+	r.Explain = "Decided (very narrow; the conservation equation itself is arithmetic over runtime values and a cgo curve library and is NOT decided): (B1) an unbalanced confidential transaction cannot be accepted unless the acceptance path skips the balance/range checks — every nil return of UTXOTransaction.CheckBasic is dominated by successful checkTxSemantic and checkCommitEqual, and, as all-paths properties, by checkRctSigData when confidential parts exist, by the range-proof check when there are confidential outputs and by the ring-signature check when there are confidential inputs; checkCommitEqual's nil return is dominated by equality of the input and output commitment sums (both non-empty) and every account-side input/output iteration passes the amount-commitment equality; block processing admits a confidential transaction only through a cache hit or a successful basic check, processBlock stops when verification fails, Process checks fee adequacy (CheckStoreState) before executing; (B2) a failed call moves nothing but fees — the snapshot is taken after preTransit and before transitInputs, refundGas reverts to that same snapshot on every vmerr path before any refund, all balance checks of transitInputs precede the first debit. ADDED after seeded-change testing: amount width — BigInt2Hash's byte loop runs while i < 8 and a value still positive afterwards is rejected with no companion test other than i == 8 / i >= 8 (no truncation modulo 2^64); CheckStoreState and checkState admit an account input only when the balance OF THE TRANSACTION'S TOKEN covers the amount and, for non-native tokens, the native balance covers the fee; checkRctSigData succeeds only with exactly one output commitment per confidential output and one ring signature per confidential input; payTransferGas reports 0 on its error path. VALUE LEDGER (added while deepening): every StateDB.{Add,Sub,Set}[Token]Balance call of app/types/vm (34 sites) is either half of a debit+credit pair with the same SSA token and amount and different accounts whose debit is covered by a balance check, or a reviewed table entry whose account, token, amount, state and guards still have the reviewed form (gas bought / refunded / collected at the par price, inputs debited / outputs credited with the same tx.Value(), credit-only primitives used at call depth 0 only and entered from the transaction layer only, issue with account==token and amount>0, self-destruct crediting the holdings of the account it then removes, mempool check-state debits); a new site is reported as unreviewed Rounds 4-5: no gas quantity converted to a signed integer without a bound; the mempool signature cache and the journal dirty counts are checked here too (shared rules). Round 6: 'no gas used' is declared only for contract upgrades; an account input is accepted only when none was accepted before. Round 7: a confidential transaction of a non-native token always recovers its fee payer (GenerateTransaction decides on IsLKC). NOT decided: fee arithmetic, EVM/WASM transfers, conservation sums, Bulletproof/commitment soundness."
 	r.Trusted = []string{"ringct / xcrypto (cgo)", "CalNewAmountGas fee schedule"}
 
 	// ---- B1: CheckBasic ---------------------------------------------------------
